@@ -1,6 +1,93 @@
+(* C13 property theorems: statements only, each closed by `exact`.
+   Vocabulary (Model.v / Proofs*.v): `run cfg ops init` replays a history on the model of the
+   pinned code and returns the outcome of every operation; `fresh st` is the current
+   composition of st and nothing else (all flags off, all caches empty, clean recursion cache);
+   `guarded` excludes exactly: a failing walk call when the wrapper does not clean up, and a
+   modification that changes the composition of something reachable from a frozen object. *)
 From Coq Require Import ZArith List String Bool Arith.
-From PAFC13 Require Import Model Proofs.
+From PAFC13 Require Import Model Proofs1 Proofs2 Proofs3 Witness.
 Import ListNotations.
-Theorem C13_stub : forall cfg st, run cfg [] st = (st, []).
-Proof. exact run_nil. Qed.
-Print Assumptions C13_stub.
+Open Scope list_scope.
+
+(* PARTIAL (guard): in every guarded history every query -- prior_count, paths, ordered prior
+   ids, instance for a vector, info -- answers exactly what the uncached query answers on the
+   current composition, whatever was frozen, cached, queried, copied or rejected before *)
+Theorem C13_coherent_partial : forall cfg pre o q, guarded cfg pre init ->
+  snd (run cfg (pre ++ [OQuery o q]) init) =
+  snd (run cfg pre init) ++ [snd (run_query cfg o q (fresh (fst (run cfg pre init))))].
+Proof. exact coherent_histories. Qed.
+
+(* the invariant form: every cache entry of a frozen object equals the pure function, hence a
+   query is blind to flags and caches and leaves the composition alone *)
+Theorem C13_cached_equals_uncached : forall cfg st o q, Inv st -> inflight st = [] ->
+  snd (run_query cfg o q st) = snd (run_query cfg o q (fresh st)) /\
+  fresh (fst (run_query cfg o q st)) = fresh st.
+Proof. exact query_coherent. Qed.
+
+Theorem C13_invariant_reachable : forall cfg ops st, Inv st -> inflight st = [] -> guarded cfg ops st ->
+  Inv (fst (run cfg ops st)) /\ inflight (fst (run cfg ops st)) = [].
+Proof. exact guarded_ok. Qed.
+
+(* no history effects: two guarded histories ending in the same composition agree on every query *)
+Theorem C13_history_independent : forall cfg pre1 pre2 o q,
+  guarded cfg pre1 init -> guarded cfg pre2 init ->
+  fresh (fst (run cfg pre1 init)) = fresh (fst (run cfg pre2 init)) ->
+  snd (run_query cfg o q (fst (run cfg pre1 init))) = snd (run_query cfg o q (fst (run cfg pre2 init))).
+Proof. exact history_independent. Qed.
+
+(* the guard is decidable on concrete histories (used on every generated history) *)
+Theorem C13_guard_checkable : forall cfg ops st, guardedb cfg ops st = true -> guarded cfg ops st.
+Proof. exact guardedb_sound. Qed.
+
+(* FULL: a frozen model / collection rejects assignment and append, state untouched *)
+Theorem C13_frozen_rejects_setattr : forall cfg st o ob name v,
+  get st o = Some ob -> okind ob <> KTuple -> ofrozen ob = true ->
+  step cfg (OSet o name v) st = (st, Exn EAssertion).
+Proof. exact frozen_rejects_setattr. Qed.
+
+Theorem C13_frozen_rejects_append : forall cfg st o ob v,
+  get st o = Some ob -> okind ob = KColl -> ofrozen ob = true ->
+  step cfg (OAppend o v) st = (st, Exn EAssertion).
+Proof. exact frozen_rejects_append. Qed.
+
+(* FULL: an accepted assignment is the dict assignment on that object only (together with
+   C13_coherent_partial: later answers reflect it) *)
+Theorem C13_reflects_changes : forall cfg st o ob name v,
+  get st o = Some ob -> okind ob = KColl -> ofrozen ob = false ->
+  let st' := fst (step cfg (OSet o name v) st) in
+  comp_at st' o = Some (KColl, set_attr name v (oattrs ob), onitems ob) /\
+  (forall t, t <> o -> comp_at st' t = comp_at st t) /\
+  snd (step cfg (OSet o name v) st) = Ok AUnit.
+Proof. exact setattr_effect. Qed.
+
+(* FULL: freeze and unfreeze never change the composition *)
+Theorem C13_freeze_cycles_keep_composition : forall cfg st o, Inv st ->
+  fresh (fst (step cfg (OFreeze o) st)) = fresh st /\ fresh (fst (step cfg (OUnfreeze o) st)) = fresh st.
+Proof. exact freeze_keeps_composition. Qed.
+
+(* FULL: other live models do not matter -- the cached functions of o read only objects reachable from o *)
+Theorem C13_other_models_irrelevant : forall st st' o k, inflight st' = inflight st -> agree st st' o ->
+  pure_key st' o k = pure_key st o k.
+Proof. exact other_objects_irrelevant. Qed.
+
+(* FULL: deepcopy leaves every existing object (attributes, flag, cache) as it was *)
+Theorem C13_copy_keeps_originals : forall cfg st o t ob, get st t = Some ob ->
+  get (fst (step cfg (OCopy o) st)) t = Some ob.
+Proof. exact copy_keeps_originals. Qed.
+
+(* REFUTED on the pinned code: the full statement (no guard) fails after a failing walk call ... *)
+Theorem C13_coherent_refuted_failing_call : ~ coherent_everywhere cfg_pinned.
+Proof. exact refuted_failing_call. Qed.
+
+(* ... and, independently of the wrapper, after a modification below a still-frozen ancestor *)
+Theorem C13_coherent_refuted_stale_ancestor : ~ coherent_everywhere cfg_repaired.
+Proof. exact refuted_stale_ancestor. Qed.
+
+(* for the repaired wrapper (try/finally) failing calls are inside the guard *)
+Theorem C13_repaired_allows_failing_calls : forall cl pr st o, guard (mkConfig cl pr true) st (OFailWalk o).
+Proof. exact repaired_allows_failing_calls. Qed.
+
+Print Assumptions C13_coherent_partial.
+Print Assumptions C13_history_independent.
+Print Assumptions C13_coherent_refuted_failing_call.
+Print Assumptions C13_coherent_refuted_stale_ancestor.
